@@ -19,14 +19,14 @@ GLOBAL_ASSUMPTIONS = [
 
 PROPS = {
     'C05': {
-        'units': [],
+        'units': ['axcut_context'],
         'aux': ['native_linearize'],
         'level': 'other',
-        'claim': 'Bounded native contract check of the real Prog::linearize: for thousands of random well-typed non-linear AxCut programs the linearized program is checked against the executable form of the property - at every statement the ordered environment is exactly the list that statement expects (call / invoke / let / switch / create), positions agree in kind and type, substitutions read bound variables and bind pairwise distinct targets, operands remain available - and its behaviour on an AxCut reference machine (consuming, positional discipline) equals that of the source program (named, non-consuming discipline).',
+        'claim': 'Proved by Verus: the kernels of linearization - fresh_identifier (strictly increasing ids), TypingContext::freshen (same length, kinds and types position-wise equal, a variable is kept iff its id is neither in the clash set nor used at an earlier position, otherwise it receives an id above the old maximum; result ids pairwise distinct and disjoint from the clash set) and TypingContext::filter_by_set (every result binding has its id in the set, comes from the input, no input binding with id in the set is lost, retained bindings keep their positions; both loops terminate; no index or underflow panic). Bounded native contract check of the real Prog::linearize: for thousands of random well-typed non-linear AxCut programs the linearized program is checked against the executable form of the property - at every statement the ordered environment is exactly the list that statement expects (call / invoke / let / switch / create), positions agree in kind and type, substitutions read bound variables and bind pairwise distinct targets, operands remain available - and its behaviour on an AxCut reference machine (consuming, positional discipline) equals that of the source program (named, non-consuming discipline).',
         'note': 'Bounded (random programs of bounded size), never counted as proved. The oracle is the property text, clause by clause, plus a reference interpreter written for this purpose (trusted).',
         'technique': 'bounded native contract check of linearize against the executable postcondition (exact environments) and a reference AxCut machine',
         'not_decided': 'linearization for all programs (unbounded); the reference interpreter is trusted',
-        'explanation': 'Bounded contract check only so far: random non-linear programs -> Prog::linearize -> executable postcondition + behavioural equality on a reference machine.',
+        'explanation': 'Verus: freshen / filter_by_set / fresh_identifier contracts. Bounded: random non-linear programs -> Prog::linearize -> executable postcondition + behavioural equality on a reference machine.',
     },
     'C06': {
         'units': ['x86_code'],
